@@ -197,11 +197,19 @@ func GenProject(r *core.Rng, flavour string) Project {
 		// deliberate errors
 		if errMods[i] {
 			for e := r.Range(1, 3); e > 0; e-- {
-				kind := r.Intn(9)
+				kind := r.Intn(13)
 				if kind >= 4 && kind <= 6 && len(imports[i]) == 0 {
 					kind = r.Intn(4)
 				}
 				switch kind {
+				case 9: // too many arguments
+					body = append(body, fmt.Sprintf("let many%d := MakeItem(1, 2, %d);", e, e))
+				case 10: // too few arguments
+					body = append(body, fmt.Sprintf("let few%d := MakeItem();", e))
+				case 11: // unknown field
+					body = append(body, fmt.Sprintf("acc = acc + it.Nope%d;", e))
+				case 12: // argument of the wrong kind
+					body = append(body, fmt.Sprintf("let odd%d := MakeItem(\"text\");", e))
 				case 7: // syntax error: reported by the goroutine that parses this module
 					body = append(body, fmt.Sprintf("let broken%d := ;", e))
 				case 8:
